@@ -27,6 +27,7 @@ structure SJ where
   okOps : List (List String) := []      -- acknowledged batches (rendered operations)
   errOps : List String := []            -- operations of commits that reported failure
   undone : List (List String) := []     -- operations removed by undos that reported true
+  ws : List String := []                -- the stored working set (from the AUDIT line)
   fails : List String := []
 
 def renderOps (toks : List String) : List String := (parseOpsAfter toks).map lopToks
@@ -49,6 +50,15 @@ def sjLine (j : SJ) (l : String) : SJ × List String :=
     | fs => fs.map fun f => s!"judge {j.hdr} :: FAIL {f}"
   if l.startsWith "# case" then ({ hdr := l }, flush j)
   else if l == "panic" then ({ j with fails := j.fails ++ ["noerr panic"] }, [])
+  else if l.startsWith "tasks=" then
+    -- every pending task is in the working set: a commit that makes a task pending adds it in the
+    -- same transaction, a rebuild keeps it, an undo ends with a rebuild
+    match parseCanonDB (l.drop 6).toString with
+    | some t =>
+      let pend := t.filter fun (_, kvs) => kvs.any fun (k, v) => k == "status" && v == "pending"
+      let missing := pend.filter fun (u, _) => !j.ws.contains s!"{u}"
+      ({ j with fails := j.fails ++ (missing.map fun (u, _) => s!"ws pending-task-missing {u}") }, [])
+    | none => ({ j with fails := j.fails ++ ["parse tasks"] }, [])
   else if !l.startsWith "> " then (j, [])
   else
     let toks := (l.drop 2).toString.splitOn " "
@@ -65,7 +75,7 @@ def sjLine (j : SJ) (l : String) : SJ × List String :=
     | "AUDIT" :: "ws" :: ws :: "ops" :: rest =>
       let stored := renderOps rest
       -- the setup batch
-      let setup := ["undo", "create 1"]
+      let setup := ["undo", "create 1", "create 2"]
       let allOk := setup ++ j.okOps.flatten
       -- every acknowledged operation is stored exactly once, except those an acknowledged undo removed
       let f1 := match msubtract allOk j.undone.flatten with
@@ -90,7 +100,7 @@ def sjLine (j : SJ) (l : String) : SJ × List String :=
       let members := wsl.filter (· != "-")
       let f4 := (if wsl.head? != some "-" then ["ws slot-0-used"] else []) ++
         (if (sortDedup members).length != members.length then [s!"ws duplicate-entry {ws.take 80}"] else [])
-      ({ j with fails := j.fails ++ f1 ++ f2 ++ f3 ++ f4 }, [])
+      ({ j with fails := j.fails ++ f1 ++ f2 ++ f3 ++ f4, ws := wsl }, [])
     | _ => (j, [])
 
 def sjFlush (j : SJ) : List String :=
